@@ -94,3 +94,17 @@ def spec_seq_out(node: 'opaque:Model', f0: 'Frame', k: 'int') -> 'Val':
                   if out_ret(spec_ungroup(node.sequence[k - 1]), spec_seq_frame(node, f0, k - 1)) is None
                   else spec_cstmerge(spec_seq_out(node, f0, k - 1),
                                      out_ret(spec_ungroup(node.sequence[k - 1]), spec_seq_frame(node, f0, k - 1)))))
+
+
+def uf_find_rule(name) -> 'func:PARSE':
+    """the parse function of the rule called `name` in the running context"""
+    raise NotImplementedError
+
+
+def uf_rule_defined(name) -> 'bool':
+    raise NotImplementedError
+
+
+def spec_call_target(node):
+    """a rule reference runs the linked rule, else the rule the context finds under that name"""
+    return node._rule._parse if node._rule else uf_find_rule(node.name)
